@@ -32,10 +32,16 @@ const classD6Alias = "race:ctree.(*Leaf).Update|ctree.(*Tree).internalDelete"
 
 // SOp is one operation of a worker's program.
 type SOp struct {
-	Kind string   `json:"kind"` // add glv getleaf hval hupd query walk walksorted del delcond walkdel
+	// add glv getleaf hval hupd query walk walksorted del delcond walkdel, and the accessor dimension
+	// (c10_access_test.go): children isbranch tvalue string (empty path: on the root, else on the node a
+	// fresh Get returns), nkids nisbr nval nstr nwalk nwalksorted (on the node retained in Slot), reset
+	// (Children() of the root, then one Delete per name returned)
+	Kind string   `json:"kind"`
 	Path []string `json:"path,omitempty"`
 	Val  int      `json:"val,omitempty"`
-	Slot int      `json:"slot,omitempty"` // handle slot of the worker (getleaf fills, hval/hupd use)
+	Slot int      `json:"slot,omitempty"` // handle slot of the worker (getleaf fills, hval/hupd and the n* kinds use)
+	// Base: (glv getleaf query) the method is invoked on the sub-tree node Get(Path[:Base]); (walk, walksorted) a non-empty Path walks Get(Path)
+	Base int `json:"base,omitempty"`
 }
 
 // Workload is what the seed determines.
@@ -49,6 +55,10 @@ type Workload struct {
 	SerialiseUpdateDelete int `json:"serialise_update_delete,omitempty"`
 	// Readers: that many workers (the last ones) only read (labels only).
 	Readers int `json:"readers,omitempty"`
+	// Tops: the number of subtrees below the root the paths are drawn from (0 = the flag's value). With one
+	// subtree a delete of it, of its last leaf or of everything empties the tree: the root goes back to its
+	// zero state and the next Add makes it a branch again, while accessors look at it.
+	Tops int `json:"tops,omitempty"`
 }
 
 // Three subtrees below the root, two letters further down: paths overlap
@@ -59,12 +69,14 @@ var (
 	stressAlphabet = []string{"a", "b"}
 )
 
-func randPath(r *rand.Rand, min, max int) []string {
+func randPath(r *rand.Rand, min, max int) []string { return randPathOf(r, stressTop, min, max) }
+
+func randPathOf(r *rand.Rand, tops []string, min, max int) []string {
 	n := min + r.Intn(max-min+1)
 	p := make([]string, n)
 	for i := range p {
 		if i == 0 {
-			p[i] = stressTop[r.Intn(len(stressTop))]
+			p[i] = tops[r.Intn(len(tops))]
 		} else {
 			p[i] = stressAlphabet[r.Intn(len(stressAlphabet))]
 		}
@@ -72,7 +84,9 @@ func randPath(r *rand.Rand, min, max int) []string {
 	return p
 }
 
-func randPattern(r *rand.Rand) []string {
+func randPattern(r *rand.Rand) []string { return randPatternOf(r, stressTop) }
+
+func randPatternOf(r *rand.Rand, tops []string) []string {
 	// depth 0 (everything) is rare: it empties the tree
 	var n int
 	switch x := r.Intn(20); {
@@ -91,7 +105,7 @@ func randPattern(r *rand.Rand) []string {
 		case r.Intn(4) == 0:
 			p[i] = "*"
 		case i == 0:
-			p[i] = stressTop[r.Intn(len(stressTop))]
+			p[i] = tops[r.Intn(len(tops))]
 		default:
 			p[i] = stressAlphabet[r.Intn(len(stressAlphabet))]
 		}
@@ -99,11 +113,49 @@ func randPattern(r *rand.Rand) []string {
 	return p
 }
 
+// genAccessor draws one operation of the accessor dimension: node is the path of
+// the node looked at (empty = the root), pattern a query pattern.
+func genAccessor(r *rand.Rand, node func() []string, pattern func() []string, slot int) SOp {
+	switch x := r.Intn(20); {
+	case x < 4:
+		return SOp{Kind: "children", Path: node()}
+	case x < 6:
+		return SOp{Kind: "isbranch", Path: node()}
+	case x < 8:
+		return SOp{Kind: "tvalue", Path: node()}
+	case x < 10:
+		return SOp{Kind: "string", Path: node()}
+	case x < 11:
+		return SOp{Kind: "reset"}
+	case x < 15:
+		// a read-only method through a sub-tree node
+		k := []string{"glv", "query", "walk", "walksorted"}[r.Intn(4)]
+		o := SOp{Kind: k, Path: node(), Base: 1 + r.Intn(2)}
+		if k == "query" {
+			o.Path = pattern()
+		}
+		return o
+	default:
+		return SOp{Kind: []string{"nkids", "nkids", "nisbr", "nval", "nstr", "nwalk", "nwalksorted"}[r.Intn(7)], Slot: slot}
+	}
+}
+
 // genWorkload draws 2..16 workers with 20..60 operations each; the product is
 // capped so that the point-operation history stays around 200 operations.
 func genWorkload(r *rand.Rand, index int, budget int) *Workload {
 	w := &Workload{Seed: 0, Index: index}
 	workers := 2 + r.Intn(15)
+	// one history in five lives below ONE subtree: deleting it, its last leaf or everything empties the tree
+	// (root back to the zero state) and the next Add turns the root into a branch again, again and again,
+	// while the accessors of the root (Children, IsBranch, Value, String, the Reset idiom) look at it.
+	// Such a history does not split into projections, so it is kept smaller.
+	tops := stressTop
+	if r.Intn(5) == 0 {
+		tops = stressTop[:1]
+		w.Tops = 1
+		workers = 2 + r.Intn(7)
+		budget = min(budget, 160)
+	}
 	per := budget / workers
 	if per > 60 {
 		per = 60
@@ -116,7 +168,21 @@ func genWorkload(r *rand.Rand, index int, budget int) *Workload {
 	delW := 4 + r.Intn(14)   // weight of deletes (out of ~100)
 	hupdW := 4 + r.Intn(12)  // weight of handle updates
 	queryW := 6 + r.Intn(10) // weight of query+walk
+	accW := 4 + r.Intn(14)   // weight of the accessor dimension (c10_access_test.go)
+	if w.Tops == 1 {
+		delW += 6
+		accW += 8
+	}
 	maxDepth := 2 + r.Intn(2)
+	path := func(min, max int) []string { return randPathOf(r, tops, min, max) }
+	pattern := func() []string { return randPatternOf(r, tops) }
+	// the node an accessor looks at: the root half of the time
+	node := func() []string {
+		if r.Intn(2) == 0 {
+			return []string{}
+		}
+		return path(1, 2)
+	}
 	// one history in four: all workers but one or two only read (Query, Walk,
 	// WalkSorted, GetLeafValue) while the writers add and delete many leaves at a
 	// time: what a reader sees of ONE delete is then comparable leaf by leaf
@@ -131,10 +197,10 @@ func genWorkload(r *rand.Rand, index int, budget int) *Workload {
 		for readers > 0 && g < workers-readers && len(prog) < per {
 			// a writer of that profile: fill several branches, then remove many leaves with one delete
 			for k := 3 + r.Intn(6); k > 0 && len(prog) < per; k-- {
-				prog = append(prog, SOp{Kind: "add", Path: randPath(r, 2, 3), Val: (g+1)*1000 + len(prog) + 1})
+				prog = append(prog, SOp{Kind: "add", Path: path(2, 3), Val: (g+1)*1000 + len(prog) + 1})
 			}
-			pat := [][]string{{}, {"*"}, {stressTop[r.Intn(len(stressTop))]}, {"*", "*"}, {"*", stressAlphabet[r.Intn(len(stressAlphabet))]},
-				{stressTop[r.Intn(len(stressTop))], "*"}, {"*", "*", stressAlphabet[r.Intn(len(stressAlphabet))]}}[r.Intn(7)]
+			pat := [][]string{{}, {"*"}, {tops[r.Intn(len(tops))]}, {"*", "*"}, {"*", stressAlphabet[r.Intn(len(stressAlphabet))]},
+				{tops[r.Intn(len(tops))], "*"}, {"*", "*", stressAlphabet[r.Intn(len(stressAlphabet))]}}[r.Intn(7)]
 			prog = append(prog, SOp{Kind: []string{"del", "del", "del", "delcond", "walkdel"}[r.Intn(5)], Path: pat})
 		}
 		for i := 0; len(prog) < per; i++ {
@@ -142,14 +208,23 @@ func genWorkload(r *rand.Rand, index int, budget int) *Workload {
 			x := r.Intn(100)
 			if g >= workers-readers {
 				switch {
-				case x < 40:
-					prog = append(prog, SOp{Kind: "query", Path: randPattern(r)})
-				case x < 55:
+				case x < 32:
+					prog = append(prog, SOp{Kind: "query", Path: pattern()})
+				case x < 44:
 					prog = append(prog, SOp{Kind: "walk"})
-				case x < 85:
+				case x < 66:
 					prog = append(prog, SOp{Kind: "walksorted"})
+				case x < 72:
+					prog = append(prog, SOp{Kind: "string"}) // String() of the root holds the root read lock like a walk
+				case x < 88:
+					// (a reader retains nodes too: getleaf fills the slot the n* kinds use)
+					if r.Intn(4) == 0 {
+						prog = append(prog, SOp{Kind: "getleaf", Path: path(1, maxDepth), Slot: r.Intn(2)})
+					} else if o := genAccessor(r, node, pattern, r.Intn(2)); o.Kind != "reset" {
+						prog = append(prog, o)
+					}
 				default:
-					prog = append(prog, SOp{Kind: "glv", Path: randPath(r, 1, maxDepth)})
+					prog = append(prog, SOp{Kind: "glv", Path: path(1, maxDepth)})
 				}
 				continue
 			}
@@ -162,7 +237,7 @@ func genWorkload(r *rand.Rand, index int, budget int) *Workload {
 				case 2:
 					k = "walkdel"
 				}
-				prog = append(prog, SOp{Kind: k, Path: randPattern(r)})
+				prog = append(prog, SOp{Kind: k, Path: pattern()})
 			case x < delW+hupdW:
 				s := r.Intn(2)
 				prog = append(prog, SOp{Kind: "hupd", Slot: s, Val: val})
@@ -177,20 +252,22 @@ func genWorkload(r *rand.Rand, index int, budget int) *Workload {
 					}
 					prog = append(prog, SOp{Kind: k})
 				} else {
-					prog = append(prog, SOp{Kind: "query", Path: randPattern(r)})
+					prog = append(prog, SOp{Kind: "query", Path: pattern()})
 				}
-			case x < delW+hupdW+queryW+12:
-				prog = append(prog, SOp{Kind: "glv", Path: randPath(r, 1, maxDepth)})
-			case x < delW+hupdW+queryW+22:
+			case x < delW+hupdW+queryW+accW:
+				prog = append(prog, genAccessor(r, node, pattern, r.Intn(2)))
+			case x < delW+hupdW+queryW+accW+10:
+				prog = append(prog, SOp{Kind: "glv", Path: path(1, maxDepth)})
+			case x < delW+hupdW+queryW+accW+20:
 				s := r.Intn(2)
-				prog = append(prog, SOp{Kind: "getleaf", Path: randPath(r, 1, maxDepth), Slot: s})
+				prog = append(prog, SOp{Kind: "getleaf", Path: path(1, maxDepth), Slot: s})
 				if r.Intn(2) == 0 && len(prog) < per {
 					prog = append(prog, SOp{Kind: "hval", Slot: s})
 				}
-			case x < delW+hupdW+queryW+28:
+			case x < delW+hupdW+queryW+accW+25:
 				prog = append(prog, SOp{Kind: "hval", Slot: r.Intn(2)})
 			default:
-				p := randPath(r, 1, maxDepth)
+				p := path(1, maxDepth)
 				prog = append(prog, SOp{Kind: "add", Path: p, Val: val})
 				// reading back what was just written keeps the order of overlapping writes observable
 				if r.Intn(2) == 0 && len(prog) < per {
@@ -230,12 +307,7 @@ func (r *stressRun) worker(g int, wg *sync.WaitGroup) {
 	prog := r.w.Progs[g]
 	log := make([]HOp, 0, len(prog))
 	defer func() { r.logs[g] = log }()
-	type slot struct {
-		l    *ctree.Leaf
-		h    int
-		path []string
-	}
-	var slots [4]slot
+	var slots [4]burstHandle
 	// start together
 	n := int32(len(r.w.Progs))
 	r.arrived.Add(1)
@@ -243,28 +315,37 @@ func (r *stressRun) worker(g int, wg *sync.WaitGroup) {
 		runtime.Gosched()
 	}
 	for i, op := range prog {
-		o := HOp{G: g, Kind: op.Kind, Path: op.Path, Val: op.Val}
-		var l *ctree.Leaf
-		switch op.Kind {
-		case "walksorted":
-			o.Kind, o.Sorted = "walk", true
-		case "hval", "hupd":
-			s := &slots[op.Slot%len(slots)]
-			if s.l == nil {
-				continue
+		if op.Kind == "reset" {
+			// the cache's Reset idiom: for name := range t.Children() { t.Delete([]string{name}) }
+			c := HOp{G: g, Kind: "children"}
+			r.guarded(&c, nil)
+			log = append(log, c)
+			for k, name := range c.Names {
+				d := HOp{G: g, Kind: "del", Path: []string{name}, Dyn: k + 1}
+				r.guarded(&d, nil)
+				log = append(log, d)
 			}
-			l, o.H, o.Path = s.l, s.h, s.path
-		case "getleaf":
-			o.H = (g+1)*1000 + i + 1
+			continue
+		}
+		o := burstHOp(g, BOp{Kind: op.Kind, Path: op.Path, Base: op.Base}, (g+1)*1000+i+1)
+		o.Val = op.Val
+		from := slots[op.Slot%len(slots)]
+		if isHeldKind(o.Kind) && from.n == nil {
+			// any node the worker retains will do
+			for _, s := range slots {
+				if s.n != nil {
+					from = s
+					break
+				}
+			}
+		}
+		l, ok := bindOp(&o, from, nil)
+		if !ok {
+			continue
 		}
 		got := r.guarded(&o, l)
-		if op.Kind == "getleaf" {
-			s := &slots[op.Slot%len(slots)]
-			if got != nil {
-				*s = slot{got, o.H, op.Path}
-			} else {
-				*s = slot{}
-			}
+		if o.Kind == "getleaf" {
+			slots[op.Slot%len(slots)] = retained(&o, got)
 		}
 		log = append(log, o)
 	}
